@@ -174,7 +174,9 @@ def oracle_split(case, lines, runner=None):
     for n in r1.notes:
         if n[0] == 'until-time':
             _, t, t0, now = n
-            if now != t:
+            if t <= t0:
+                fails.append({'what': f'run(until={t}) at now={t0} was accepted instead of being refused with ValueError', 'signature': 'until-time-not-refused'})
+            elif now != t:
                 fails.append({'what': f'run(until={t}) returned with now={now}', 'signature': 'until-time-now'})
         if n[0] == 'until-event':
             if not n[1]:
